@@ -16,7 +16,8 @@ from bounded.common import Skip
 from bounded import lib_misc as lm
 
 RULE = ("all tree shapes with n<=N tokens (discontinuous ones included), randomly decorated with unary nodes (also "
-        "above tokens) and shuffled child lists, plus seeded random trees up to 8 tokens; punctuation / trace tokens "
+        "above tokens; for a quarter of the trees also a unary node directly below the root) and shuffled child lists, "
+        "plus seeded random trees up to 8 tokens; punctuation / trace tokens "
         "on every subset of positions (n<=4) or a seeded subset; every token for delete_terminal; a fixed family of "
         "terminal files per tree (valid at every position, n+1, n+2, 100, 0, negative, mixed, other sentence id, "
         "duplicate index, 3-field lines) x quiet; all operators x values 0..n+1 for filter_by_length.  Non-trivial = "
